@@ -141,6 +141,10 @@ Section Run.
     guard [q_unit a; q_unit b] (show_qres E (Q2Qc tol) (Q2Qc impl) (qsub QcN tbl res keys a b)).
   Definition r_eq (a b : quantity) : string :=
     guard [q_unit a; q_unit b] ("B:" ++ show_bool (qeq QcN tbl res keys a b)).
+  Definition r_ne (a b : quantity) : string :=
+    guard [q_unit a; q_unit b] ("B:" ++ show_bool (qne QcN tbl res keys a b)).
+  Definition r_vmcmp (op : cmpop) (a b : quantity) : string :=
+    guard [q_unit a; q_unit b] (show_bres (vm_cmp QcN tbl res keys op a b)).
   Definition r_cmp (a b : quantity) : string :=
     guard [q_unit a; q_unit b] (show_ord (pcmp QcN tbl res keys a b)).
   Definition r_simp (tol impl : Q) (a : quantity) : string :=
